@@ -49,10 +49,10 @@ Init ==
   /\ \/ \E o \in 1..Len(OpOps), c \in 1..Len(Cls), b \in 1..Len(Batches), cg \in {0, 1} : \E ls \in LayoutSeqs(Len(OpOps[o].roles)) :
           /\ (Quick => (o + c + b + cg) % 3 = 0)
           /\ case = [kind |-> "op", op |-> OpOps[o].op, roles |-> OpOps[o].roles, layouts |-> ls, cls |-> Cls[c], b |-> Batches[b], cg |-> cg,
-                     term |-> <<>>, seed |-> Seed + o * 31 + c * 7 + b]
+                     term |-> <<>>, seed |-> o * 31 + c * 7 + b]
      \/ \E o \in 1..Len(UtilOps), b \in 1..Len(Batches) : \E ls \in LayoutSeqs(Len(UtilOps[o].roles)) :
           case = [kind |-> "util", op |-> UtilOps[o].op, roles |-> UtilOps[o].roles, layouts |-> ls, cls |-> "-", b |-> Batches[b], cg |-> 0,
-                  term |-> <<>>, seed |-> Seed + o * 17 + b]
+                  term |-> <<>>, seed |-> o * 17 + b]
   /\ ver = [r \in 1..Len(case.roles) |-> 0] /\ done = FALSE
 
 \* the call: frame condition on the caller cells
